@@ -64,7 +64,7 @@ pub fn gen(tier: &str, seed: u64, emit: &mut dyn FnMut(String)) {
             let mut m = Mux::new();
             m.psi(0, &pat0, 0, 0, &mut rng);
             m.psi(pmt_pid, &pmt0, 0, if multi { 1 } else { 0 }, &mut rng);
-            let run = *rng.pick(&[2usize, 3, 8, 16, 21, 22, 33, 40, 70]);
+            let run = *rng.pick(&[2usize, 3, 8, 16, 21, 22, 33, 40, 70, 129, 255, 256, 257, 300]);
             for k in 0..run {
                 let mut bad = sect.clone();
                 bad[5] = (bad[5] & 0xc1) | ((((k as u8) * 3 + 7) & 31) << 1);
